@@ -189,7 +189,31 @@ theorem rep_skel (hnb : ∀ id, okb id → ∃ b s, lookupBody bodies id = some 
     refine ⟨?_, fun h => by simp [isLeafE] at h⟩
     simp only [skel]
     exact good_bin (fun _ _ _ _ _ _ _ h1 hd _ hl hr _ _ hx hy => Rep.seq h1 (Or.inr hd) hl hr hx hy) ha hb
-  | .sideAfter _ _, hf => by simp only [fragE] at hf
+  | .sideAfter x b, hf => by
+    simp only [fragE] at hf
+    obtain ⟨hv, hfx, hfb⟩ := hf
+    have hb := (rep_skel hnb b hfb).1
+    refine ⟨?_, fun h => by simp [isLeafE] at h⟩
+    simp only [skel, hv, if_true]
+    intro tree lo par h
+    obtain ⟨h1, h2⟩ := h.pre
+    obtain ⟨h3, h4⟩ := h2.pre
+    rw [size_pre, root_pre, size_pre]
+    have hx : LeafRep pf (mkPN (skel pr nb x).lab par none (some (lo + 1 + (Sk.pre sideLab (skel pr nb b)).root))) x := by
+      cases x with
+      | lit v => simp only [fragE] at hfx; simp only [skel, Sk.lab]; exact .lit (hfx.moveR par _)
+      | input => simp only [skel, Sk.lab]; exact .input rfl
+      | ident s =>
+        simp only [fragE] at hfx
+        simp only [skel, Sk.lab]
+        have := LeafRep.ident (pf := pf)
+          (pn := mkPN (Definition.identifier, pr.name s) par none (some (lo + 1 + (Sk.pre sideLab (skel pr nb b)).root))) rfl
+        simp only [mkPN] at this
+        rw [hfx] at this
+        exact this
+      | _ => simp [isValE] at hv
+    have := hb _ _ _ h4
+    exact Rep.side h1 rfl rfl hx h3 rfl rfl (by simpa [Nat.add_assoc] using this)
   | .nested id, hf => by
     simp only [fragE] at hf
     obtain ⟨b, s, hb, hs, hg⟩ := hnb id hf
